@@ -85,6 +85,13 @@ def bad(where, why, node=None):
 
 
 # --------------------------------------------------------------------------- helpers
+def _parse(text):
+    import warnings
+    with warnings.catch_warnings():
+        warnings.simplefilter("ignore")          # invalid escape sequences in docstrings of the package
+        return ast.parse(text)
+
+
 def _body(fn):
     b = list(fn.body)
     if b and isinstance(b[0], ast.Expr) and isinstance(b[0].value, ast.Constant) and isinstance(b[0].value.value, str):
@@ -548,7 +555,7 @@ def census(repo):
         if rel.startswith("pybads/testing/"):
             continue
         try:
-            tree = ast.parse(p.read_text())
+            tree = _parse(p.read_text())
         except SyntaxError as ex:
             raise Untranslatable(f"{rel} does not parse: {ex}", "census")
         for n in ast.walk(tree):
@@ -577,7 +584,7 @@ def _expected_sites(construct):
 # --------------------------------------------------------------------------- translate
 def translate(repo: Path = None):
     repo = Path(repo) if repo else REPO
-    tree = ast.parse((repo / SRC_OPT).read_text())
+    tree = _parse((repo / SRC_OPT).read_text())
     cls = None
     reader = None
     for i, st in enumerate(tree.body):
@@ -632,7 +639,7 @@ def translate(repo: Path = None):
         load=tr_load(load),
         validate=tr_validate(methods["validate_option_names"]),
     )
-    btree = ast.parse((repo / SRC_BADS).read_text())
+    btree = _parse((repo / SRC_BADS).read_text())
     prog["construct"] = tr_construct(btree, _params(methods["__init__"], "Options.__init__")[1:], LOAD_PARAMS[0])
     got, exp = census(repo), _expected_sites(prog["construct"])
     if got != exp:
